@@ -216,6 +216,10 @@ def check_C01(ctx):
 
 def check_C02(ctx):
     res = Result()
+    for bn, line, key, first in source_dup_keys(["ubxtypes_get.py", "ubxtypes_set.py", "ubxtypes_poll.py"]):
+        res.finding(f"dupkey={bn}:{key}", f"{bn}:{line}: the definition as written names {key} twice (first at line {first}); "
+                    "the loaded definition has one field fewer, so a payload laid out as written is decoded at shifted offsets",
+                    dict(file=bn, line=line, key=key, first_line=first))
     lines, meta = [], []
     for ent, lay, fr in gen_frames(ctx, ctx.n(10, 150), maxrep=ctx.rng.choice([3, 5])):
         for bf in (1, 0):
@@ -1985,8 +1989,43 @@ CHECKS["C13"] = check_C13
 
 # ----------------------------------------------------------------------------- C14
 
+def source_dup_keys(basenames):
+    """duplicate constant keys inside one dict literal of the shipped table sources: Python keeps the first position
+    and the last value, so the table object the library loads silently differs from the definition as written
+    (a field, a message or a key is lost). Returns [(file, line, key, first_line)]."""
+    import ast
+    out = []
+    src = os.path.dirname(pyubx2.__file__)
+    for bn in basenames:
+        fn = os.path.join(src, bn)
+        try:
+            tree = ast.parse(open(fn, encoding="utf-8").read())
+        except (OSError, SyntaxError):
+            continue
+        for node in ast.walk(tree):
+            if not isinstance(node, ast.Dict):
+                continue
+            seen = {}
+            for k in node.keys:
+                if isinstance(k, ast.Constant):
+                    kk = ("c", k.value)
+                elif isinstance(k, ast.Name):
+                    kk = ("n", k.id)
+                else:
+                    continue
+                if kk in seen:
+                    out.append((bn, k.lineno, repr(kk[1]), seen[kk]))
+                else:
+                    seen[kk] = k.lineno
+    return out
+
+
 def check_C14(ctx):
     res = Result()
+    for bn, line, key, first in source_dup_keys(["ubxtypes_configdb.py"]):
+        res.finding(f"dupkey={bn}:{key}", f"{bn}:{line}: key {key} is written twice in one dict literal (first at line {first}); "
+                    "the loaded table keeps one entry, so a configuration key as shipped is lost",
+                    dict(file=bn, line=line, key=key, first_line=first))
     rng = ctx.rng
     db = ubc.UBX_CONFIG_DATABASE
     lines, meta = [], []
@@ -2463,6 +2502,11 @@ def nominal_roundtrip(ent, bf):
 
 def check_C16(ctx):
     res = Result()
+    for bn, line, key, first in source_dup_keys(["ubxtypes_get.py", "ubxtypes_set.py", "ubxtypes_poll.py", "ubxtypes_core.py",
+                                                  "ubxtypes_configdb.py"]):
+        res.finding(f"dupkey={bn}:{key}", f"{bn}:{line}: name {key} is written twice in one dict literal (first at line {first}): "
+                    "two fields / entries are declared under one name and the loaded table keeps only one of them",
+                    dict(file=bn, line=line, key=key, first_line=first))
     # translator round trip: every definition dumped back by the driver equals the live Python object
     lines, meta = [], []
     for tname, mode in (("get", GET), ("set", SET), ("poll", POLL)):
